@@ -649,5 +649,29 @@ func seqs40() []*mc.Seq {
 			l40downgrade("c1", "O1", "a", accRead),
 			l40io(ioWrite, "c1", "O1", "a", sidLock, "L1"),
 		}))
+
+	// Share reservations that outlive an OPEN_DOWNGRADE: the file is open
+	// read+write by O1 and lock-owner L1 holds a byte-range lock through
+	// that open (its lock state cloned the read+write share reservation).
+	// Downgrades, upgrades by the same open-owner, LOCKU, CLOSE,
+	// RELEASE_LOCKOWNER, a second lock-owner created after the downgrade,
+	// I/O through the lock state ID and lease expiry, deep enough for
+	// OPEN_DOWNGRADE -> OPEN(upgrade) -> CLOSE -> (reclaim oracles). The
+	// second scenario starts one step later (already downgraded to read).
+	lockedPrefix40 := chain(prefix40Open("c1", "O1", "a", accBoth), func(w *world, f failer) {
+		w.client40("c1").lock(f, "O1", "a", "L1", rangeB0, false)
+	})
+	downgradeLetters40 := []letter{
+		l40downgrade("c1", "O1", "a", accRead), l40downgrade("c1", "O1", "a", accWrite),
+		l40open("c1", "O1", "a", accRead, howNoCreate), l40open("c1", "O1", "a", accWrite, howNoCreate), l40open("c1", "O1", "a", accBoth, howNoCreate),
+		l40locku("c1", "O1", "a", "L1", rangeB0), l40lock("c1", "O1", "a", "L2", rangeB1, true),
+		l40close("c1", "O1", "a"),
+		l40release("c1", "L1"),
+		l40io(ioWrite, "c1", "O1", "a", sidLock, "L1"),
+		lAdvance(pastLease, "lease+1"),
+	}
+	out = append(out, makeSeq("v40-locked-downgrade-upgrade", []string{"C18", "C19"}, map[string]int{"quick": 4, "thorough": 6}, lockedPrefix40, downgradeLetters40))
+	out = append(out, makeSeq("v40-locked-downgraded-upgrade", []string{"C18"}, map[string]int{"quick": 4, "thorough": 6},
+		chain(lockedPrefix40, func(w *world, f failer) { w.client40("c1").downgrade(f, "O1", "a", accRead) }), downgradeLetters40))
 	return out
 }
